@@ -212,6 +212,13 @@ func (p *Program) RunPath(x *Exec, fn *ssa.Function, args []int, prefix []Decisi
 			if r.kind == endUnsupported {
 				x.Unsupp[r.msg]++
 			}
+			if r.kind == endBudget && x.BudgetAsViolation {
+				// candidate for "the host is wedged / the stack is exhausted": decided by the native replay
+				func() {
+					defer func() { recover() }()
+					x.Violate("budget", r.msg, "")
+				}()
+			}
 		case targetPanic:
 			res.End = endViolation
 			res.Msg = "uncaught target panic: " + toString(r.v)
